@@ -56,10 +56,14 @@ def gen_case(rng, idx, tier):
         calls = []
         for _ in range(rng.randint(12, 40)):
             c = rng.random()
-            if c < 0.7:
+            if c < 0.55:
                 fam = rng.choice(FAMILIES)
                 n = rng.randint(2 if fam == "closed" else 1, NMAX)
                 calls.append([rng.choice(["nodes", "weights"]), fam, n])
+            elif c < 0.7:
+                # the samplers also take the number class: a request for another class must not leak into later ones
+                fam = rng.choice(["closed", "open"])
+                calls.append(["nodes-cls", fam, rng.randint(2 if fam == "closed" else 1, NMAX), rng.choice(["float", "Fraction", "npfloat"])])
             elif c < 0.85:
                 calls.append(["integrate", rng.choice(FAMILIES), rng.randint(0, 3), rng.randint(2, 7)])
             else:
@@ -185,6 +189,17 @@ def run_history(case, ctx):
             want = cold[f"{fam}:{n}"][0 if c[0] == "nodes" else 1]
             got = enc_rule(o.value) if isinstance(o.value, tuple) else None
             ctx.check(got == want, f"history:order-dependent:{fam}:{c[0]}", f"{c[0]} of {fam}({n}) depends on what was requested earlier: {lib.short(got)} vs cold {lib.short(want)}")
+        elif c[0] == "nodes-cls":
+            _, fam, n, clsname = c
+            import numpy as _np
+
+            cls = {"float": float, "Fraction": F, "npfloat": _np.float64}[clsname]
+            o = call(ff[fam][0], n, cls)
+            if ctx.check(o.ok, f"history:raises:{fam}:{o.exc_name}", f"{fam}_linspace({n}, {clsname}) raised {o.brief()}"):
+                want = [cls(k) / (n - 1) for k in range(n)] if fam == "closed" else [cls(k) / (2 * n) for k in range(1, 2 * n, 2)]
+                got = o.value
+                ok = isinstance(got, tuple) and len(got) == n and all(type(g) is type(w) and g == w for g, w in zip(got, want))
+                ctx.check(ok, f"history:order-dependent:{fam}:nodes-cls", f"{fam}_linspace({n}, {clsname}) = {lib.short(got)} (expected {lib.short(want)}): depends on earlier requests")
         elif c[0] == "integrate":
             _, fam, p, npts = c
             npts = max(npts, p + 1)
